@@ -30,3 +30,8 @@ Definition dec_mant (ip fp : str) : Z :=
   match atoi_digits (ip ++ fp) with Some n => Z.of_N n | None => 0 end.
 Definition parse_dec (ip fp : str) : f64 :=
   fdiv (of_Z (dec_mant ip fp)) (of_Z (10 ^ Z.of_nat (length fp))).
+
+(* x > 0 on binary64 (false for zeros, NaN, negatives) *)
+Definition fzero : f64 := of_Z 0.
+Definition fpos (x : f64) : bool :=
+  match @Bcompare prec emax x fzero with Some Gt => true | _ => false end.
